@@ -279,8 +279,22 @@ def _operand_ty(fn, o):
     if p is not None:
         if isinstance(p, int):
             return fn.local_ty(p)
-        last = pl_proj(p)[-1]
-        return last[3] if last[0] == "field" else None
+        ty = fn.local_ty(pl_local(p))
+        for e in pl_proj(p):
+            if e[0] == "deref":
+                ty = _deref_ty(ty)
+            elif e[0] == "field":
+                ty = e[3]
+            elif e[0] in ("index", "cindex"):
+                m = re.match(r"^\[(.*?)(; .*)?\]$", ty or "")
+                ty = m.group(1) if m else None
+            elif e[0] == "downcast":
+                pass
+            else:
+                ty = None
+            if ty is None:
+                return None
+        return ty
     k = o.get("k") or {}
     return k.get("ty")
 
@@ -511,11 +525,32 @@ def verify_guard(prog, site, g):
     if "dom_cmp" in g:
         # {"dom_cmp": {"op": "Lt|Le|...", "lhs": "<regex on rendered sym>", "rhs": "<regex>"}}
         spec = g["dom_cmp"]
-        for f in guards.facts_at_term(fn, site.bb):
+        for f in guards.facts_at(fn, site.bb, kill=False):
             for op, l, r in f.oriented():
                 if op == spec["op"] and re.search(spec["lhs"], sym_str(l, 400)) and re.search(spec["rhs"], sym_str(r, 400)):
                     return True, "dominating comparison %s %s %s" % (sym_str(l), op, sym_str(r))
         return False, "no dominating comparison %s" % spec
+    if "py" in g:
+        import importlib
+        mod, fnname = g["py"].split(":")
+        ok, msg = getattr(importlib.import_module(mod), fnname)(prog)
+        return ok, msg
+    if "caller_guard" in g:
+        # every call site of `fn` is control dependent on the (boolean) result of a call to `dom_call`
+        spec = g["caller_guard"]
+        rx = re.compile(spec["dom_call"])
+        sites = prog.callers_of(spec["fn"])
+        if not sites:
+            return False, "%s has no callers (anchor lost)" % spec["fn"]
+        for f2, bi, t in sites:
+            found = False
+            for fact in guards.facts_at(f2, bi, kill=False):
+                if _contains_call(fact.l, rx):
+                    found = True
+                    break
+            if not found:
+                return False, "call site of %s in %s is not control dependent on %s" % (spec["fn"], f2.path, spec["dom_call"])
+        return True, "all %d call sites of %s are control dependent on %s" % (len(sites), spec["fn"], spec["dom_call"])
     if "callers" in g:
         spec = g["callers"]
         rx = re.compile(spec["fn"])
